@@ -415,25 +415,32 @@ class World:
             self.ctx.probe('test_batch_created')
 
     # -- the C30 monitor -------------------------------------------------------------------------
-    def on_merge_put(self, number, sha, refusal):
+    def ci_decision_state(self, number):
+        """CI's in-memory view of the PR at the instant it issues the merge PUT."""
+        for wb in self.wbs:
+            cpr = wb.prs.get(number)
+            if cpr is not None:
+                return {'batch': cpr.batch, 'labels': set(cpr.labels), 'review_state': cpr.review_state,
+                        'statuses': {k: v.value for k, v in cpr.last_known_github_status.items()}}
+        return None
+
+    def on_merge_put(self, number, sha, refusal, held):
         """every merge PUT that reaches GitHub.  A problem is a pair of facts about one aspect (labels, review, checks,
         batch): (1) what CI was most recently served / holds does not entitle it to merge, and (2) the world agrees,
         i.e. the property text is violated by this merge.  (1) without (2) is a lucky merge (probe); (2) without (1)
-        is a legal race (probe)."""
+        is a legal race (probe).  `held` is CI's in-memory view when it sent the PUT."""
         gh = self.gh
         p = gh.prs.get(number)
         problems = []   # (aspect or None, signature suffix, detail)
         sp = gh.served_pr.get(number)
         sc = gh.served_chk.get(number)
         base = p.base if p is not None else None
-        wb = self.wb_by_branch.get(base)
-        cpr = wb.prs.get(number) if wb is not None else None
         # how CI came to it (only refines the signature): does CI's in-memory view agree with what it was last served?
-        ci_labels_ok = cpr is not None and not (set(cpr.labels) & DNM)
-        ci_review_ok = cpr is not None and cpr.review_state == 'approved'
-        ci_checks_ok = cpr is not None and all(
-            st.value == 'success' for k, st in cpr.last_known_github_status.items() if k != self.ci_context)
-        ci_holds = sorted((k, v.value) for k, v in cpr.last_known_github_status.items()) if cpr is not None else None
+        ci_labels_ok = held is not None and not (held['labels'] & DNM)
+        ci_review_ok = held is not None and held['review_state'] == 'approved'
+        ci_checks_ok = held is not None and all(
+            st == 'success' for k, st in held['statuses'].items() if k != self.ci_context)
+        ci_holds = sorted(held['statuses'].items()) if held is not None else None
 
         def how(ci_ok):
             return 'ci_view_differs' if ci_ok else 'ci_view_agrees'
@@ -452,7 +459,7 @@ class World:
             if sc['review'] != 'APPROVED':
                 problems.append(('review', f'not_approved/{how(ci_review_ok)}',
                                  f'review decision last served to CI: {sc["review"]} (CI holds '
-                                 f'{cpr.review_state if cpr is not None else None})'))
+                                 f'{held["review_state"] if held is not None else None})'))
             bad = [(k, v[1]) for k, v in sorted(sc['nodes'].items())
                    if v[2] and k != self.ci_context and v[1] not in OK_STATES]
             if bad:
@@ -470,7 +477,7 @@ class World:
             problems.append(('checks', 'unrefreshed_new_head/required_check_not_success',
                              f'CI holds the checks of the older commit {sc["sha"]} ({ci_holds}); it was later served '
                              f'the new head {sha} but never its checks'))
-        b = cpr.batch if cpr is not None else None
+        b = held['batch'] if held is not None else None
         if b is None or not isinstance(b, self.Batch) or not b.is_created:
             problems.append(('batch', 'no_test_batch', f'pr.batch is {type(b).__name__}'))
         else:
